@@ -212,7 +212,9 @@ def linear_cg(
     else:
         # precon_residual{0} = M^-1 residual_{0}
         precond_residual = preconditioner(residual)
-        curr_conjugate_vec = precond_residual
+        # own buffer: the search direction is updated in place and must not alias the residual
+        # (a preconditioner may legitimately return its argument)
+        curr_conjugate_vec = precond_residual.clone()
         residual_inner_prod = precond_residual.mul(residual).sum(-2, keepdim=True)
 
         # Define storage matrices
